@@ -27,6 +27,7 @@ Act ==
       [] a = "add_to_heap" -> (AddToHeap(Ev.h, Ev.k, Ev.how, Ev.c))
       [] a = "globals_from_module" -> (GlobalsFromModule(Ev.f, Ev.i, Ev.how) /\ last'.k = Ev.k)
       [] a = "globals_from_handle" -> (GlobalsFromHandle(Ev.h, Ev.how) /\ last'.k = Ev.k)
+      [] a = "rehome" -> (Rehome(Ev.h) /\ last'.k = Ev.k /\ last'.i = Ev.i)
       [] a = "use_global" -> (UseGlobal(Ev.k, Ev.how))
       [] a = "module_from_globals" -> (ModuleFromGlobals(Ev.f) /\ last'.k = Ev.k)
       [] a = "drop_open" -> (DropOpen(Ev.k))
